@@ -67,8 +67,12 @@ type churnRun struct {
 	ps    *pubsub.PubSub
 	clock atomic.Int64
 	churn atomic.Int64
-	mu    sync.Mutex
-	fail  *kit.Failure
+	// rounds in which a watcher was not told within the cap while the process
+	// was starved of CPU (inconclusive, see lagWatch)
+	starvedMiss atomic.Int64
+	mu          sync.Mutex
+	fail        *kit.Failure
+	notes       []string
 }
 
 func (r *churnRun) failf(kind, format string, a ...any) {
@@ -149,12 +153,15 @@ func (r *churnRun) doc(d int, lw *lagWatch) {
 				r.ps.Unsubscribe(ctx, key, sub)
 				select {
 				case <-drained:
-				case <-gotime.After(3 * gotime.Second):
+				case <-gotime.After(waitCap):
+					r.failf("OPEN-AFTER-UNSUBSCRIBE", "doc %d: %v after Unsubscribe of a churning actor returned its event channel is still open", d, waitCap)
+					return
 				}
 				r.churn.Add(1)
 			}
 		}()
 	}
+rounds:
 	for round := 1; round <= cc.Rounds && !r.failed(); round++ {
 		pause(cc.Pause + round)
 		pEntry := r.clock.Add(1)
@@ -172,15 +179,20 @@ func (r *churnRun) doc(d int, lw *lagWatch) {
 				break
 			}
 			if gotime.Now().After(deadline) {
-				if !lw.starved() {
+				if lw.starved() {
+					r.starvedMiss.Add(1)
+					r.mu.Lock()
+					r.notes = append(r.notes, fmt.Sprintf("churn (inconclusive, process starved: a 1 ms sleeper overslept %v): doc %d round %d: watcher actor %d, subscribed and reading "+
+						"(its previous event was received at stamp %d, so its one-slot buffer was empty), was not told about the DocChanged published at stamp %d within %v and its channel stayed open",
+						gotime.Duration(lw.max.Load()), d, round, missing.id, missing.told.Load(), pEntry, waitCap))
+					r.mu.Unlock()
+				} else {
 					r.failf("NEVER-TOLD", "doc %d round %d: watcher (actor %d) subscribed before anything was published and is still subscribed, but %v after the DocChanged "+
 						"of the writer was published (stamp %d) it has neither received it (last told at stamp %d) nor had its channel closed; "+
 						"%d other watchers, %d churning goroutines subscribing/unsubscribing other actors on the same key",
 						d, round, missing.id, waitCap, pEntry, missing.told.Load(), cc.Watchers-1, cc.Churners)
 				}
-				close(stop)
-				cw.Wait()
-				return
+				break rounds // (the watchers still unsubscribe below: the leak checks need that)
 			}
 			gotime.Sleep(gotime.Millisecond)
 		}
@@ -196,7 +208,8 @@ func (r *churnRun) doc(d int, lw *lagWatch) {
 	for _, w := range ws {
 		select {
 		case <-w.done:
-		case <-gotime.After(3 * gotime.Second):
+		case <-gotime.After(waitCap):
+			r.failf("OPEN-AFTER-UNSUBSCRIBE", "doc %d: %v after Unsubscribe of watcher (actor %d) returned its event channel is still open", d, waitCap, w.id)
 		}
 	}
 	if ids := r.ps.ClientIDs(key); len(ids) != 0 {
@@ -204,7 +217,7 @@ func (r *churnRun) doc(d int, lw *lagWatch) {
 	}
 }
 
-func evalChurn(cc ChurnCase) (fail *kit.Failure, churn int, starved bool) {
+func evalChurn(cc ChurnCase) (fail *kit.Failure, churn int, starved bool, starvedMiss []string) {
 	r := &churnRun{cc: cc, ps: pubsub.New()}
 	lw := startLagWatch()
 	defer lw.close()
@@ -222,7 +235,7 @@ func evalChurn(cc ChurnCase) (fail *kit.Failure, churn int, starved bool) {
 			r.failf("LEAK-PUBLISHER", "%d batch-publisher goroutine(s) still run after every subscriber of every key unsubscribed", left)
 		}
 	}
-	return r.fail, int(r.churn.Load()), lw.starved()
+	return r.fail, int(r.churn.Load()), lw.starved(), r.notes
 }
 
 func TestC17Churn(t *testing.T) {
@@ -247,12 +260,19 @@ func TestC17Churn(t *testing.T) {
 		}
 		h := hashOf(cc)
 		setInflight("churn", "churn", fmt.Sprintf("churn-%016x", h), cc)
-		fail, churn, starved := evalChurn(cc)
+		fail, churn, starved, miss := evalChurn(cc)
 		total += churn
 		col.SetExtra("churn_subscribe_unsubscribe_pairs", total)
 		cl := map[string]int{fmt.Sprintf("churn:docs=%d", cc.Docs): 1, "churn:rounds": cc.Rounds * cc.Docs}
 		if starved {
 			cl["churn:starved"] = 1
+		}
+		if len(miss) > 0 {
+			cl["churn:inconclusive_starved"] = 1
+			for _, n := range miss {
+				col.Note("%s", n)
+				fmt.Println("NOTE " + n)
+			}
 		}
 		// non-trivial: on average at least one subscribe/unsubscribe pair of another actor per published round
 		col.Record(h, fail == nil && churn >= cc.Rounds*cc.Docs, cl, func() any {
@@ -273,7 +293,7 @@ func replayChurn(raw json.RawMessage) *kit.Failure {
 		return kit.Failf("HARNESS", "HARNESS-ERROR bad case: %v", err)
 	}
 	for i := 0; i < 5; i++ {
-		if fail, _, _ := evalChurn(cc); fail != nil {
+		if fail, _, _, _ := evalChurn(cc); fail != nil {
 			return fail
 		}
 	}
